@@ -68,8 +68,30 @@ READ_TRAITS = re.compile(r"^(std::io::(Read|BufRead|Seek)|futures_io::(if_std::)
 BUFREADER_INHERENT = re.compile(r"^(std::io::BufReader::<R>::|futures_util::io::BufReader::<R>::|futures::io::BufReader::<R>::|std::io::buffered::bufreader::BufReader::<R>::)")
 
 
+def instantiations(F, p, param):
+    """Types a generic parameter of local function `p` is instantiated with at its call sites in the crate."""
+    b = F.body(p)
+    names = [g for g in (b.get("generics") or []) if not g.startswith("const ") and not g.startswith("'")]
+    if param not in names:
+        return None
+    idx = names.index(param)
+    out = set()
+    for q, qb in F.bodies.items():
+        if qb.get("derived"):
+            continue
+        for bi, f, sp, how in all_fn_refs(qb):
+            if f["path"] == p or f.get("resolved") == p:
+                targs = [a for a in f.get("args", []) if isinstance(a, int)]
+                if len(targs) == len(names):
+                    out.add(F.ty_s(targs[idx]))
+                elif len(targs) >= len(names) - idx:
+                    out.add(F.ty_s(targs[idx - len(names)]))
+    return out
+
+
 def check_read_exact(ctx, funcs, want_trait, want_self_re, rule="CALL-R"):
-    """In `funcs`, the only methods of the reader traits invoked are `read_exact` on the BufReader."""
+    """In `funcs`, the only methods of the reader traits invoked are `read_exact` on the BufReader (a generic helper's
+    reader parameter is resolved through its call sites)."""
     F, R = ctx.facts, ctx.report
     n = 0
     for p in funcs:
@@ -84,6 +106,10 @@ def check_read_exact(ctx, funcs, want_trait, want_self_re, rule="CALL-R"):
             fl, ln = loc_of({"sp": sp})
             if tr and READ_TRAITS.search(tr):
                 st = F.ty_s(f["self_ty"]) if f.get("self_ty") is not None else "?"
+                if f.get("self_ty") is not None and F.ty(f["self_ty"])["k"] == "param":
+                    inst = instantiations(F, p, st)
+                    if inst and all(re.search(want_self_re, x) for x in inst):
+                        st = sorted(inst)[0]
                 if f.get("name") == "read_exact" and re.search(want_trait, tr) and re.search(want_self_re, st):
                     n += 1
                     R.instance(rule, "%s: <%s as %s>::read_exact" % (p, st, tr))
